@@ -14,10 +14,26 @@
   (`verifySelect`, `processReject`), `onDisconnect` draining the inbound channel through the old state, etc.
 -/
 import Qfx.Model.Values
+import Qfx.Model.Validate
 namespace Qfx.Sess
 open Qfx
 
 /-! ## configuration, messages -/
+
+/-- the validator `sessionFactory.newSession` builds (session_factory.go l.96–180): the five `ValidatorSettings`
+    (ValidateFieldsOutOfOrder, RejectInvalidMessage, AllowUnknownMessageFields, CheckUserDefinedFields,
+    ValidateFieldsHaveValues) and the dictionaries — `app = none`: `NewValidator(settings, nil, nil)`, the default validator;
+    `app = some d, tr = none`: setting `DataDictionary`; both: `TransportDataDictionary` + `AppDataDictionary` (FIXT.1.1).
+    The same dictionaries guide the parser (`ParseMessageWithDataDictionary` in `stateMachine.Incoming`). -/
+structure VCfg where
+  app : Option Validate.VDict := none
+  tr : Option Validate.VDict := none
+  settings : Validate.Settings := Validate.defaultSettings
+
+instance : Inhabited VCfg := ⟨{}⟩
+instance : Repr VCfg := ⟨fun v _ =>
+  Std.Format.text ("validator(" ++ (if v.app.isSome then "app" else "-") ++ "," ++ (if v.tr.isSome then "tr" else "-") ++ ",")
+    ++ repr v.settings ++ Std.Format.text ")"⟩
 
 structure Cfg where
   initiator : Bool := false
@@ -40,6 +56,8 @@ structure Cfg where
   resetSeqTime : Option Nat := none
   /-- EnableLastMsgSeqNumProcessed: every outbound header carries tag 369 -/
   lastSeqProcessed : Bool := false
+  /-- the message validator (settings + data dictionaries) -/
+  validator : VCfg := {}
   deriving Repr, Inhabited
 
 def bsName : Nat → String
@@ -405,11 +423,83 @@ def checkTooHigh (s : Sess) (m : InMsg) : Option Rej :=
   | .garbled => some (badFormat 34)
   | .val n => if n > s.store.target then some (.tooHigh n s.store.target) else none
 
-/-- default validator without dictionaries: validateFieldContent — first empty value in wire order -/
-def validate (m : InMsg) : Option Rej :=
-  match m.f.find? (fun p => p.2.isEmpty) with
-  | some p => some (noValue p.1)
-  | none => none
+/-! ### message validation (validation.go through `Qfx.Validate`, the validator model of C15)
+
+The validator reads a parsed `*Message`: `msg.fields` in wire order — which includes BodyLength (9) behind the first field
+and CheckSum (10) at the end, both absent from `InMsg` — and the three field maps filled by the parser.  The dictionaries
+of this family have no repeating groups, so the parser (`doParsing`) files every field by its tag class alone:
+`isHeaderField` / `isTrailerField` (tag.go, or a member of the transport dictionary's header / trailer), body otherwise. -/
+
+/-- a timestamp the harness could have written for an `@n` token (any in-grammar value behaves alike) -/
+def tsOnWire : Bytes := [50, 48, 50, 52, 48, 51, 48, 52, 45, 48, 48, 58, 48, 48, 58, 48, 48, 46, 48, 48, 48]
+
+/-- the bytes of a value on the wire: the harness replaces `@n` (n a decimal number) by the UTCTimestamp now+n -/
+def wireValue (v : String) : Bytes :=
+  match v.toList with
+  | '@' :: r => if (String.ofList r).toInt?.isSome then tsOnWire else strBytes v
+  | _ => strBytes v
+
+def tvOf (p : Nat × String) : Validate.TV := { tag := p.1, value := wireValue p.2 }
+
+/-- `msg.fields`: BodyLength is the second field of every message that parses, CheckSum the last (their values are in
+    their types' grammars; the validator looks at nothing else) -/
+def wireFields (m : InMsg) : List Validate.TV :=
+  match m.f with
+  | [] => [{ tag := 9, value := [48] }, { tag := 10, value := [48, 48, 48] }]
+  | p :: r => tvOf p :: { tag := 9, value := [48] } :: (r.map tvOf ++ [{ tag := 10, value := [48, 48, 48] }])
+
+/-- message.go isHeaderField(tag, transportDataDictionary) -/
+def isHeaderField (tr : Option Validate.VDict) (t : Nat) : Bool :=
+  Validate.isHeaderTag t ||
+    (match tr with
+     | some d => (match d.header with | some h => (h.field? t).isSome | none => false)
+     | none => false)
+
+/-- message.go isTrailerField(tag, transportDataDictionary) -/
+def isTrailerField (tr : Option Validate.VDict) (t : Nat) : Bool :=
+  Validate.isTrailerTag t ||
+    (match tr with
+     | some d => (match d.trailer with | some h => (h.field? t).isSome | none => false)
+     | none => false)
+
+/-- the parsed message the validator sees (`tr`: the session's transport dictionary, nil unless FIXT.1.1) -/
+def toPMsg (tr : Option Validate.VDict) (m : InMsg) : Validate.PMsg :=
+  let fs := wireFields m
+  let tags := fs.map (·.tag)
+  { fields := fs
+    hdr := tags.filter (isHeaderField tr)
+    body := tags.filter (fun t => !isHeaderField tr t && !isTrailerField tr t)
+    trl := tags.filter (fun t => !isHeaderField tr t && isTrailerField tr t) }
+
+/-- `s.Validator.Validate(msg)`: fixValidator with a nil dictionary (`validateFIX(nil, …)`: only `validateFieldContent`),
+    fixValidator / fixtValidator with dictionaries (`Qfx.Validate.validate`) -/
+def runValidator (v : VCfg) (m : InMsg) : Validate.V Unit :=
+  let pm := toPMsg v.tr m
+  match v.app with
+  | none =>
+    if !pm.hdr.contains 35 then Validate.rej 1 35
+    else Validate.validateFieldContent pm v.settings.checkHaveValues v.settings.checkOrder
+  | some app => Validate.validate app v.tr v.settings pm
+
+/-- a MessageRejectError of the validator as the session sees it: a session-level reject (never a business reject);
+    a panic of the validator (a dictionary type outside `validateField`'s switch, a dictionary without header or trailer —
+    not produced by the configurations of this family) is kept apart as reason 99 -/
+def rejOfV : Validate.V Unit → Option Rej
+  | .ok _ => none
+  | .error (.reject r) => some (.plain r.reason r.ref false)
+  | .error _ => some (.plain 99 none false)
+
+/-- the verdict of the configured validator on an inbound message -/
+def validate (cfg : Cfg) (m : InMsg) : Option Rej := rejOfV (runValidator cfg.validator m)
+
+/-- whatever the validator objects to reaches the session as a plain session-level reject (reason, RefTagID) -/
+theorem validate_plain {cfg : Cfg} {m : InMsg} {r : Rej} (h : validate cfg m = some r) :
+    ∃ reason t, r = .plain reason t false := by
+  unfold validate rejOfV at h
+  split at h
+  · cases h
+  · cases h; exact ⟨_, _, rfl⟩
+  · cases h; exact ⟨_, _, rfl⟩
 
 /-- the scripted application: verdict carried in tag 9001 of the inbound message -/
 def callbackVerdict (m : InMsg) : Option Rej :=
@@ -423,7 +513,7 @@ def seqText (m : InMsg) : String := (m.f.get? 34).getD "-"
 
 /-- verifyMsgAgainstAppImpl: validator, then FromAdmin / FromApp (observed) -/
 def verifyAppImpl (s : Sess) (m : InMsg) : Sess × Option Rej :=
-  match validate m with
+  match validate s.cfg m with
   | some r => (s, some r)
   | none =>
     let k := kindOf m
